@@ -44,7 +44,7 @@ EXPECTED_PROBES = ["probe_frame_fragmented", "probe_frames_coalesced", "probe_un
                    "probe_same_text_after_remote_set", "probe_unencodable_request_in_burst", "probe_equal_text_of_different_kinds",
                    "probe_second_connection_reads_during_a_call", "probe_response_above_16MiB",
                    "probe_remote_definition_of_a_function_used_locally_first", "probe_chain_backend", "probe_unbound_symbol", "net_stall",
-                   "probe_client_connects_during_a_call", "probe_server_calls_client"]
+                   "probe_client_connects_during_a_call", "probe_server_calls_client", "probe_second_handle_by_address_closed"]
 WALL_CAP = {"quick": 400, "thorough": 3600}
 EXHAUSTIVE_NOTE = "configuration 'cuts' enumerates every (a<=b) split of the concatenated frames into three reads exhaustively for each generated case"
 
@@ -209,7 +209,7 @@ def scenario(ch, cfg):
         cl(f"f::.cli({PORT})")
         for i in range(nops):
             last = i == nops - 1
-            k = ch.weighted([6, 4, 4, 4, 2, 2, 2, 2, 2, 1 if last else 0, 2, 1, 1, 1, 2], "op")
+            k = ch.weighted([6, 4, 4, 4, 2, 2, 2, 2, 2, 1 if last else 0, 2, 1, 1, 1, 2, 1], "op")
             if k == 0:      # f("expr")
                 m = ch.weighted([5, 2, 2, 1, 1, 1], "expr")
                 if m == 0:
@@ -480,6 +480,16 @@ def scenario(ch, cfg):
                 if res2.get("v") != want2:
                     viol("C13:value-mismatch:dict-get-during-another-call", f"second connection d?:gv while f(:slow,42) was running on the server gave "
                          f"{str(res2.get('v'))[:100]}; the server's gv is {str(want2)[:100]}")
+            elif k == 15:   # a second handle opened by address in the same client, used and closed: every handle is a connection of its own
+                stats["probe_second_handle_by_address_closed"] += 1
+                both("second-handle-open", f"g{i}::.cli({PORT});1", lambda: 1)
+                if not (violations or state.get("client_exc")):
+                    a1, b1 = ch.draw(50, "ga"), ch.draw(50, "gb")
+                    both("second-handle-eval", f'g{i}("{a1}+{b1}")', lambda: twin(f"{a1}+{b1}"))
+                    both("second-handle-close", f".clic(g{i})", lambda: 1)
+                    both("first-handle-after-close-of-second", f'f("{a1}*{b1}")', lambda: twin(f"{a1}*{b1}"))
+                    if state.get("dict"):
+                        both("dict-handle-after-close-of-second", "d?:gv", lambda: twin("gv"))
             elif k == 14:   # the server evaluates on the client through its handle of this connection
                 def server_handle():
                     try:
@@ -519,7 +529,7 @@ def scenario(ch, cfg):
                     if got_local is not None and got_local != ("ok", canon(ctwin(nm))):
                         viol("C13:reverse:value-mismatch:stored-value", f"the server stored {lit} as {nm} on the client; the client reads {str(got_local)[:120]}")
             elif k == 13:   # another client connects (the server's .srv.o callback runs) while this client's call is running on the server
-                stats["probe_client_connects_during_a_call", "probe_server_calls_client"] += 1
+                stats["probe_client_connects_during_a_call", "probe_server_calls_client", "probe_second_handle_by_address_closed"] += 1
                 from sim.klnode import Node
                 newc = Node(w, net, f"E{i}")
                 delay = ch.draw(12, "conndelay")
